@@ -653,12 +653,20 @@ def run(case):
                 return [[np.asarray(x).tolist() for x in _tables_of(coord, "time" if hasattr(coord.table, "mjd") else "q")]
                         for _axes, coord in cube.extra_coords._lookup_tables]
             src_before = _src_tables()
+            # argument forms: whole factors as Python ints / an integer array (with offsets that stay fractional), tuples
+            import zlib
+            rform = zlib.crc32(("rform" + str(case["key"])).encode()) % 4
+            fa, oa = (f[0] if case["scalar_args"] else f), (o[0] if case["scalar_args"] else o)
+            if rform in (1, 2) and all(float(x).is_integer() for x in f):
+                fa = int(f[0]) if case["scalar_args"] else ([int(x) for x in f] if rform == 1 else np.array([int(x) for x in f]))
+            elif rform == 3 and not case["scalar_args"]:
+                fa, oa = tuple(f), np.array(o)
             try:
-                new = cube.extra_coords.resample(f[0] if case["scalar_args"] else f, o[0] if case["scalar_args"] else o)
+                new = cube.extra_coords.resample(fa, oa)
                 # the source is left as it was, and asked a second time it gives the same answer
                 if _src_tables() != src_before:
                     why.append("resampling changed the tables of the extra coords it was applied to")
-                again = cube.extra_coords.resample(f[0] if case["scalar_args"] else f, o[0] if case["scalar_args"] else o)
+                again = cube.extra_coords.resample(fa, oa)
                 t1 = [[np.asarray(x).tolist() for x in _tables_of(c_, "time" if hasattr(c_.table, "mjd") else "q")] for _a, c_ in new._lookup_tables]
                 t2 = [[np.asarray(x).tolist() for x in _tables_of(c_, "time" if hasattr(c_.table, "mjd") else "q")] for _a, c_ in again._lookup_tables]
                 if t1 != t2:
